@@ -84,7 +84,7 @@ fn gen_q(rng: &mut Rng, g: &GenCfg, items: &[Ent]) -> QSpec {
     QSpec {
         d: rng.below(g.docs as u64) as u8,
         latest: rng.chance(1, 3),
-        author: if rng.chance(1, 2) { None } else { Some(rng.below(g.authors as u64 + 1) as u8) },
+        author: if rng.chance(1, 2) { None } else { Some(rng.below((g.authors as u64 + 1).min(crate::world::N_AUTHORS as u64)) as u8) },
         kf: gen_kf(rng, items),
         by_key: rng.chance(1, 2),
         desc: rng.chance(1, 2),
@@ -101,7 +101,7 @@ impl Scenario for QueryScen {
     }
 
     fn gen(&self, rng: &mut Rng, tier: Tier) -> QueryPlan {
-        let g = GenCfg { docs: rng.range(1, 2) as u8, authors: rng.range(1, 3) as u8, max_key_len: 3, ts_values: 5, marker_pct: 25, contents: 3 };
+        let g = GenCfg { docs: *rng.pick(&[1u8, 2, 2, 3, 4]), authors: rng.range(1, 4) as u8, max_key_len: 3, ts_values: 5, marker_pct: 25, contents: 3 };
         let n = rng.urange(1, tier.pick(12, 20));
         let items: Vec<Ent> = (0..n).map(|_| gen_ent(rng, &g)).collect();
         let backend = match rng.below(10) {
@@ -295,9 +295,10 @@ fn short(v: &[Ent]) -> String {
 async fn run(plan: &QueryPlan, cx: &mut Cx) -> Res {
     let w = world();
     let mut sut = Sut::new(plan.backend)?;
-    ensure_doc(sut.store(), 0)?;
-    ensure_doc(sut.store(), 1)?;
-    let mut models = [RefDoc::default(), RefDoc::default()];
+    for d in 0..crate::world::N_DOCS as u8 {
+        ensure_doc(sut.store(), d)?;
+    }
+    let mut models = [RefDoc::default(), RefDoc::default(), RefDoc::default(), RefDoc::default()];
     for step in &plan.steps {
         match step {
             QStep::Offer { i, path } => {
